@@ -2,62 +2,79 @@
 other key", "stops verifying when a bit changes", "signed by another key", "field differs from what was signed").
 
 The scheme `(sign, verify, pub)` is a parameter of every theorem; these predicates are always LOCAL hypotheses, never
-axioms. They describe an information-theoretically ideal, deterministic signature scheme (what a game-based EUF-CMA
-statement idealises to in a model without probabilities or adversaries):
+axioms. Every one of them speaks about HONESTLY GENERATED public keys only — keys of the form `pub sk`, i.e. derived from
+a seed by the scheme's key generation. Nothing is assumed about verification under any other 32-byte string:
 
 * `SigCorrect` — what the key pair signs, its public key verifies;
-* `SigUnforgeable` — the verifier accepts `(pk, m, s)` ONLY IF `s` is the signature of `m` under a secret key of `pk`:
-  there is no accepted triple that the key holder did not produce;
-* `SigBinds` — a signature determines the public key of its signer and, on 32-byte messages (digests), the message:
-  two signing events with the same signature are the same event. (Restricted to 32-byte messages because signatures
-  have a fixed length of 64 bytes: an unrestricted version would contradict the pigeonhole principle and make every
-  theorem using it vacuous.)
+* `SigSound` — a genuine signature, made with `sk` over the 32-byte digest `m`, verifies under an honestly generated key
+  `pub sk'` for a 32-byte digest `m'` ONLY IF `pub sk' = pub sk` and `m' = m`. For Ed25519 with keys of prime order this
+  holds up to collisions / fixed points of the internal SHA-512 reduced modulo the group order (same key: `h' ≡ h`;
+  another honest key: `A' = (h/h')·A` with `h'` depending on `A'`); it is an IDEALISATION, not a property of the real
+  scheme. It does NOT follow by counting that it must fail: it constrains genuine signatures only.
+* `SigUnforgeable` — under an honestly generated key only what a holder of a secret key of it produced with `sign`
+  verifies. This is the strongest idealisation (strong unforgeability plus determinism of the signer: the real key
+  holder could produce other valid signatures for the same message); it is used ONLY by `verified_was_signed`
+  (C14) / `accepted_was_signed` (C19) and never by the rejection theorems.
 
-Real Ed25519 satisfies none of them literally (they hold up to negligible probability against bounded adversaries);
-the correspondence runs exercise the same negatives with real Ed25519 (foreign keys, bit flips, substituted fields).
+THE LIMIT, witnessed. For keys that are NOT honestly generated the real scheme gives nothing of the kind: Go's
+`ed25519.Verify` accepts one fixed signature for EVERY message under the small-order key `01 00 … 00` (oracle
+`go.ed.smallorder`, run on every check), and accepted a forged signature under the all-zero key that `ParseStateInit`
+used to return for the lockup wallet code (known finding, fixed; oracle `go.tc.lockup`). The hypotheses below are
+consistent with that: `toy_ideal` satisfies all of them although its verifier accepts EVERYTHING under the dishonest
+key `01 00 … 00` (`toy_dishonest_key_accepts_all`). This is why the theorems of C14 / C19 require the verification key
+(the "other key", the key controlling the account) to be honestly generated, why `ParseStateInit` must never return a
+key that is not the one stored by the wallet's owner, and why the source of `CheckProof`'s key matters.
 
-`accept_all_violates` / `accept_all_violates_binds`: the accept-everything verifier is EXCLUDED by `SigUnforgeable`;
-`toy_ideal`: the hypotheses are jointly satisfiable (with 64-byte signatures). -/
+`accept_all_violates`: the accept-everything verifier is EXCLUDED by `SigSound`. -/
 namespace Tongo.Sig
 
 abbrev Bytes := List UInt8
+
+/-- `pk` was produced by the scheme's key generation -/
+def Honest (pub : Bytes → Bytes) (pk : Bytes) : Prop := ∃ sk, pk = pub sk
 
 /-- signature correctness -/
 def SigCorrect (sign : Bytes → Bytes → Bytes) (verify : Bytes → Bytes → Bytes → Bool) (pub : Bytes → Bytes) : Prop :=
   ∀ sk m, verify (pub sk) m (sign sk m) = true
 
-/-- ideal unforgeability: whatever verifies was produced by `sign` under a secret key of that public key -/
+/-- a genuine signature verifies, among honestly generated keys and 32-byte digests, only for its signer's key and its
+own digest -/
+def SigSound (sign : Bytes → Bytes → Bytes) (verify : Bytes → Bytes → Bytes → Bool) (pub : Bytes → Bytes) : Prop :=
+  ∀ sk sk' m m', m.length = 32 → m'.length = 32 → verify (pub sk') m' (sign sk m) = true → pub sk' = pub sk ∧ m' = m
+
+/-- under an honestly generated key, whatever verifies was produced by `sign` under a secret key of that key -/
 def SigUnforgeable (sign : Bytes → Bytes → Bytes) (verify : Bytes → Bytes → Bytes → Bool) (pub : Bytes → Bytes) : Prop :=
-  ∀ pk m s, verify pk m s = true → ∃ sk, pk = pub sk ∧ s = sign sk m
+  ∀ sk m s, verify (pub sk) m s = true → ∃ sk', pub sk' = pub sk ∧ s = sign sk' m
 
-/-- a signature determines its signer's public key and (on digests) the signed message -/
-def SigBinds (sign : Bytes → Bytes → Bytes) (pub : Bytes → Bytes) : Prop :=
-  ∀ sk sk' m m', m.length = 32 → m'.length = 32 → sign sk m = sign sk' m' → pub sk = pub sk' ∧ m = m'
-
-/-- the three together -/
+/-- what the rejection theorems assume -/
 structure Ideal (sign : Bytes → Bytes → Bytes) (verify : Bytes → Bytes → Bytes → Bool) (pub : Bytes → Bytes) : Prop where
   correct : SigCorrect sign verify pub
-  unforgeable : SigUnforgeable sign verify pub
-  binds : SigBinds sign pub
+  sound : SigSound sign verify pub
 
-/-- What the ideal scheme gives the verifier's side: a signature made with `sk` on the digest `d` verifies for
-`(pk', d')` only if `pk'` is `sk`'s public key and `d'` is `d`. -/
-theorem Ideal.verify_sound {sign verify pub} (I : Ideal sign verify pub) (sk pk' d d' : Bytes)
+/-- a signature made with `sk` over the digest `d` verifies for an HONEST key `pk'` and a digest `d'` only if `pk'` is
+`sk`'s public key and `d'` is `d` -/
+theorem Ideal.verify_sound {sign verify pub} (I : Ideal sign verify pub) (sk pk' d d' : Bytes) (hh : Honest pub pk')
     (hd : d.length = 32) (hd' : d'.length = 32) (h : verify pk' d' (sign sk d) = true) : pk' = pub sk ∧ d' = d := by
-  obtain ⟨sk', hpk, hs⟩ := I.unforgeable pk' d' (sign sk d) h
-  obtain ⟨hp, hm⟩ := I.binds sk sk' d d' hd hd' hs
-  exact ⟨by rw [hpk, hp], hm.symm⟩
+  obtain ⟨sk', rfl⟩ := hh
+  exact I.sound sk sk' d d' hd hd' h
 
-/-- and conversely the complete characterisation: it verifies IFF key and digest are the signer's -/
-theorem Ideal.verify_iff {sign verify pub} (I : Ideal sign verify pub) (sk pk' d d' : Bytes)
+/-- the complete characterisation among honest keys: it verifies IFF key and digest are the signer's -/
+theorem Ideal.verify_iff {sign verify pub} (I : Ideal sign verify pub) (sk pk' d d' : Bytes) (hh : Honest pub pk')
     (hd : d.length = 32) (hd' : d'.length = 32) : verify pk' d' (sign sk d) = true ↔ (pk' = pub sk ∧ d' = d) :=
-  ⟨I.verify_sound sk pk' d d' hd hd', fun ⟨h1, h2⟩ => by rw [h1, h2]; exact I.correct sk d⟩
+  ⟨I.verify_sound sk pk' d d' hh hd hd', fun ⟨h1, h2⟩ => by rw [h1, h2]; exact I.correct sk d⟩
 
-/-! ### the hypotheses exclude the accept-all verifier and are satisfiable -/
+/-! ### the hypotheses exclude the accept-all verifier, are satisfiable, and say nothing about dishonest keys -/
 
-/-- The verifier that accepts everything does NOT satisfy `SigUnforgeable` (for any `sign` whose signatures are 64
-bytes long): it accepts the empty signature, which nobody produced. -/
-theorem accept_all_violates (sign : Bytes → Bytes → Bytes) (pub : Bytes → Bytes) (hsl : ∀ sk m, (sign sk m).length = 64) :
+/-- The verifier that accepts everything does NOT satisfy `SigSound`: it accepts one genuine signature for two different
+digests. -/
+theorem accept_all_violates (sign : Bytes → Bytes → Bytes) (pub : Bytes → Bytes) :
+    ¬ SigSound sign (fun _ _ _ => true) pub := by
+  intro h
+  have := (h [] [] (List.replicate 32 0) (List.replicate 32 1) (by simp) (by simp) rfl).2
+  exact absurd this (by decide)
+
+/-- … nor `SigUnforgeable` when signatures have 64 bytes: it accepts the empty signature. -/
+theorem accept_all_violates_unforgeable (sign : Bytes → Bytes → Bytes) (pub : Bytes → Bytes) (hsl : ∀ sk m, (sign sk m).length = 64) :
     ¬ SigUnforgeable sign (fun _ _ _ => true) pub := by
   intro h
   obtain ⟨sk, _, hs⟩ := h [] [] [] rfl
@@ -65,44 +82,56 @@ theorem accept_all_violates (sign : Bytes → Bytes → Bytes) (pub : Bytes → 
   rw [← hs] at this
   simp at this
 
-/-- … and, independently of signature lengths, it contradicts `SigUnforgeable ∧ SigBinds`: it accepts one signature
-for two different digests. -/
-theorem accept_all_violates_binds (sign : Bytes → Bytes → Bytes) (pub : Bytes → Bytes) :
-    ¬ (SigUnforgeable sign (fun _ _ _ => true) pub ∧ SigBinds sign pub) := by
-  intro ⟨hu, hb⟩
-  obtain ⟨sk, _, hs⟩ := hu [] (List.replicate 32 0) [] rfl
-  obtain ⟨sk', _, hs'⟩ := hu [] (List.replicate 32 1) [] rfl
-  have := (hb sk sk' (List.replicate 32 0) (List.replicate 32 1) (by simp) (by simp) (hs.symm.trans hs')).2
-  exact absurd this (by decide)
+/-- A toy scheme with 32-byte public keys and 64-byte signatures. Honest public keys start with the byte 2 followed by the
+secret key cut / padded to 31 bytes; the signature is the public key followed by the message cut / padded to 32 bytes;
+the verifier recomputes it for keys starting with 2 — and ACCEPTS EVERYTHING under the key `01 00 … 00`, which is not
+honestly generated (the analogue of Ed25519's small-order keys). -/
+def pad (n : Nat) (x : Bytes) : Bytes := (x ++ List.replicate n 0).take n
+def pad32 (x : Bytes) : Bytes := pad 32 x
+def lowKey : Bytes := 1 :: List.replicate 31 0
+def toyPub (sk : Bytes) : Bytes := 2 :: pad 31 sk
+def toySign (sk m : Bytes) : Bytes := toyPub sk ++ pad32 m
+def toyVerify (pk m s : Bytes) : Bool := pk == lowKey || (pk.length == 32 && pk.head? == some 2 && s == pk ++ pad32 m)
 
-/-- a toy ideal scheme with 32-byte public keys and 64-byte signatures: the public key is the secret key cut / padded
-to 32 bytes, the signature is the public key followed by the message cut / padded to 32 bytes, and the verifier
-recomputes it (and insists on a 32-byte key) -/
-def pad32 (x : Bytes) : Bytes := (x ++ List.replicate 32 0).take 32
-def toyPub (sk : Bytes) : Bytes := pad32 sk
-def toySign (sk m : Bytes) : Bytes := pad32 sk ++ pad32 m
-def toyVerify (pk m s : Bytes) : Bool := pk.length == 32 && s == pk ++ pad32 m
-
-theorem pad32_length (x : Bytes) : (pad32 x).length = 32 := by simp [pad32]
+theorem pad_length (n : Nat) (x : Bytes) : (pad n x).length = n := by simp [pad]
+theorem pad32_length (x : Bytes) : (pad32 x).length = 32 := pad_length 32 x
 theorem pad32_of_length {x : Bytes} (h : x.length = 32) : pad32 x = x := by
-  simp [pad32, List.take_append_of_le_length (Nat.le_of_eq h.symm), List.take_of_length_le (Nat.le_of_eq h)]
+  simp [pad32, pad, List.take_append_of_le_length (Nat.le_of_eq h.symm), List.take_of_length_le (Nat.le_of_eq h)]
+theorem toyPub_length (sk : Bytes) : (toyPub sk).length = 32 := by simp [toyPub, pad_length]
+theorem toyPub_ne_lowKey (sk : Bytes) : (toyPub sk == lowKey) = false := by
+  simp [toyPub, lowKey]
 
-/-- non-vacuity: the toy scheme is ideal, its signatures have 64 bytes and its public keys 32 -/
-theorem toy_ideal : Ideal toySign toyVerify toyPub ∧ (∀ sk m, (toySign sk m).length = 64) ∧ (∀ sk, (toyPub sk).length = 32) := by
-  refine ⟨⟨?_, ?_, ?_⟩, ?_, ?_⟩
+/-- non-vacuity: the toy scheme satisfies ALL the hypotheses (correct, sound, unforgeable under honest keys), its
+signatures have 64 bytes and its public keys 32 -/
+theorem toy_ideal : Ideal toySign toyVerify toyPub ∧ SigUnforgeable toySign toyVerify toyPub ∧
+    (∀ sk m, (toySign sk m).length = 64) ∧ (∀ sk, (toyPub sk).length = 32) := by
+  have hv : ∀ sk m s, toyVerify (toyPub sk) m s = (s == toyPub sk ++ pad32 m) := by
+    intro sk m s
+    simp [toyVerify, toyPub_ne_lowKey, toyPub_length]
+    simp [toyPub]
+  refine ⟨⟨?_, ?_⟩, ?_, ?_, toyPub_length⟩
   · intro sk m
-    simp [toyVerify, toySign, toyPub, pad32_length]
-  · intro pk m s h
-    simp only [toyVerify, Bool.and_eq_true, beq_iff_eq] at h
-    refine ⟨pk, ?_, ?_⟩
-    · simp [toyPub, pad32_of_length h.1]
-    · simp [toySign, pad32_of_length h.1, h.2]
+    rw [hv]; simp [toySign]
   · intro sk sk' m m' hm hm' h
-    simp only [toySign] at h
-    have := List.append_inj h (by rw [pad32_length, pad32_length])
-    refine ⟨this.1, ?_⟩
-    rw [← pad32_of_length hm, ← pad32_of_length hm']; exact this.2
-  · intro sk m; simp [toySign, pad32_length]
-  · intro sk; simp [toyPub, pad32_length]
+    rw [hv] at h
+    simp only [toySign, beq_iff_eq] at h
+    have := List.append_inj h (by rw [toyPub_length, toyPub_length])
+    refine ⟨this.1.symm, ?_⟩
+    rw [← pad32_of_length hm, ← pad32_of_length hm']; exact this.2.symm
+  · intro sk m s h
+    rw [hv] at h
+    exact ⟨sk, rfl, by simpa [toySign] using h⟩
+  · intro sk m; simp [toySign, toyPub_length, pad32_length]
+
+/-- THE LIMIT inside the model: the hypotheses are compatible with a verifier that accepts every message and every
+signature under a key that is not honestly generated — exactly what Go's Ed25519 does under the small-order key
+`01 00 … 00` (oracle `go.ed.smallorder`). Hence no theorem that assumes only `Ideal` / `SigUnforgeable` can say anything
+about verification under such keys. -/
+theorem toy_dishonest_key_accepts_all : (∀ m s, toyVerify lowKey m s = true) ∧ ¬ Honest toyPub lowKey ∧ lowKey.length = 32 := by
+  refine ⟨fun m s => by simp [toyVerify], ?_, by simp [lowKey]⟩
+  intro ⟨sk, h⟩
+  have := toyPub_ne_lowKey sk
+  rw [← h] at this
+  simp at this
 
 end Tongo.Sig
